@@ -32,9 +32,9 @@ T_Fail == FailBook /\ files' = <<>> /\ buf' = <<>> /\ cur' = 0 /\ seq' = 0
 T_Append == IsEv("Append") /\ AppendNode(Ev.tok, Ev.res) /\ Obs
 T_Flush == IsEv("Flush") /\ Ev.res = "ok" /\ Flush /\ Obs
 T_Checkpoint == IsEv("Checkpoint") /\ Ev.res = "ok" /\ Checkpoint(Ev.obs.seq) /\ Obs
-T_Reopen == IsEv("Reopen") /\ (\E trim \in BOOLEAN : Reopen(Ev.obs.seq, trim) /\ Obs)
-T_Truncate == IsEv("Truncate") /\ (\E trim \in BOOLEAN : Truncate(Ev.b, Ev.obs.seq, trim) /\ Obs)
-T_Flip == IsEv("Flip") /\ Flip(Ev.f, Ev.b, Ev.m) /\ Obs
+T_Reopen == IsEv("Reopen") /\ Ev.res = "ok" /\ (\E trim \in BOOLEAN : Reopen(Ev.obs.seq, trim) /\ Obs)
+T_Truncate == IsEv("Truncate") /\ Ev.res = "ok" /\ (\E trim \in BOOLEAN : Truncate(Ev.b, Ev.obs.seq, trim) /\ Obs)
+T_Flip == IsEv("Flip") /\ Ev.res = "ok" /\ Flip(Ev.f, Ev.b, Ev.m) /\ Obs
 
 TNext == T_Fail \/ T_Reset \/ T_Append \/ T_Flush \/ T_Checkpoint \/ T_Reopen \/ T_Truncate \/ T_Flip
 TSpec == TInit /\ [][TNext]_tvars
